@@ -47,11 +47,27 @@ impl FrontierModel for ProbeFrontier {
     }
 }
 
+/// an output plugin of the harness (a trait the code already has), first in the list: marks "the search of
+/// this query has returned successfully" in the event history (output plugins are not run for failed searches)
+struct SearchEndMarker;
+impl routee_compass::plugin::output::output_plugin::OutputPlugin for SearchEndMarker {
+    fn process(
+        &self,
+        output: &mut Value,
+        _result: &Result<(routee_compass::app::search::search_app_result::SearchAppResult, routee_compass_core::algorithm::search::search_instance::SearchInstance), routee_compass::app::compass::compass_app_error::CompassAppError>,
+    ) -> Result<(), routee_compass::plugin::output::output_plugin_error::OutputPluginError> {
+        let qid = output.get("request").and_then(|r| r.get("_qid")).and_then(|q| q.as_u64()).unwrap_or(u64::MAX);
+        sim::probe(sim::PROBE_SEARCH_END, qid, 0);
+        Ok(())
+    }
+}
+
 pub struct InstallProbes;
 impl Instrument for InstallProbes {
     fn after_build(&mut self, app: &mut CompassApp, _reference: bool) {
         let inner = app.search_app.frontier_model_service.clone();
         app.search_app.frontier_model_service = Arc::new(ProbeFrontierService { inner });
+        app.output_plugins.insert(0, Arc::new(SearchEndMarker));
     }
     fn before_run(&mut self, batch_idx: usize) {
         // marks where the explored execution starts in the event history
@@ -101,8 +117,21 @@ fn fmt_hms(ns: u64) -> String {
 
 fn gen(seed: u64, family: &str, tier: Tier) -> Case {
     let mut r = Rng::new(seed ^ fnv64("C10"));
-    let gp = GraphParams { p_no_dead_ends: if family == "yens" { 1.0 } else { 0.8 }, p_disconnected: if family == "yens" { 0.0 } else { 0.25 }, ..graph_params(tier) };
+    let gp = GraphParams { p_no_dead_ends: if family == "yens" { 1.0 } else if family == "deadends" { 0.0 } else { 0.8 }, p_disconnected: if family == "yens" { 0.0 } else { 0.25 }, ..graph_params(tier) };
     let mut w = World::gen_graph(&mut r, &gp);
+    if family == "deadends" {
+        // about a third of the vertices lose every outgoing edge
+        let dead: Vec<usize> = (0..w.nv()).filter(|_| r.chance(0.35)).collect();
+        let keep: Vec<bool> = w.edges.iter().map(|e| !dead.contains(&e.0)).collect();
+        if keep.iter().filter(|k| **k).count() >= 2 {
+            let mut it = keep.iter();
+            w.edges.retain(|_| *it.next().unwrap());
+            let mut it = keep.iter();
+            w.speeds.retain(|_| *it.next().unwrap());
+            let mut it = keep.iter();
+            w.grades.retain(|_| *it.next().unwrap());
+        }
+    }
     gen_traversal(&mut r, &mut w);
     gen_algorithm(&mut r, &mut w, false, false);
     w.ref_unlimited = true;
@@ -149,6 +178,13 @@ fn gen(seed: u64, family: &str, tier: Tier) -> Case {
             }
         }
         "iterations" => iters,
+        // dead-end vertices (nothing to expand when popped) under an iteration limit, with a runtime check at
+        // every loop turn so that the clock reads count the turns
+        "deadends" => {
+            let mut ms = vec![iters.clone(), json!({"type": "query_runtime", "limit": "0:01:00", "frequency": 1})];
+            r.shuffle(&mut ms);
+            json!({"type": "combined", "models": ms})
+        }
         "yens" => json!({"type": "iterations", "limit": r.range(1, 16)}),
         "size" => size,
         _ => {
@@ -178,6 +214,11 @@ fn gen(seed: u64, family: &str, tier: Tier) -> Case {
     w.edge_oriented = edge_family;
     for qid in 0..nq {
         let (mut q, _) = gen_query(&mut r, &w, &pc, qid, false);
+        if family == "deadends" && r.chance(0.3) {
+            if let Some(m) = q.as_object_mut() {
+                m.remove("destination_vertex"); // a tree search pops every reachable vertex, dead ends included
+            }
+        }
         if family == "yens" {
             // Yen's algorithm only gets past its two recorded defects when the best route has three or more
             // edges: choose pairs that are at least three hops apart (when the network has any)
@@ -311,6 +352,11 @@ fn explored_segments<'a>(obs: &'a Obs) -> Vec<Segment<'a>> {
     segs
 }
 
+thread_local! {
+    /// reach probe: loop turns that expanded nothing, inferred from the clock reads
+    static DEAD_END_TURNS: std::cell::Cell<u64> = const { std::cell::Cell::new(0) };
+}
+
 #[derive(Debug, PartialEq)]
 enum Predicted {
     /// stopped by these limits
@@ -323,13 +369,20 @@ enum Predicted {
 
 /// reference model of the limits, fed the very clock values and expansions the search saw
 fn walk(seg: &Segment, lim: &Limits, exact: bool, size_may_fire: bool) -> Result<(Predicted, u64), String> {
-    walk_from(&seg.events, 0, lim, exact, size_may_fire, &|e: &ProbeEv| e.a).map(|(p, t, _)| (p, t))
+    // events up to the "search returned" marker, when there is one (successful searches only): then every
+    // monotonic read in what remains belongs to the search
+    let end = seg.events.iter().position(|e| e.kind == sim::PROBE_SEARCH_END);
+    let ev = &seg.events[..end.unwrap_or(seg.events.len())];
+    walk_from(ev, 0, lim, exact, size_may_fire, &|e: &ProbeEv| e.a, Some(end.is_some())).map(|(p, t, _)| (p, t))
 }
 
 /// walks one search starting at `pos0`; `key` names the vertex an expansion call belongs to (the source
 /// of the edge in a forward search, its destination in a reverse search). Also returns the position
 /// after the last event of this search.
-fn walk_from(ev: &[&ProbeEv], pos0: usize, lim: &Limits, exact: bool, size_may_fire: bool, key: &dyn Fn(&ProbeEv) -> u64) -> Result<(Predicted, u64, usize), String> {
+/// `dense`: None = never infer loop turns from clock reads; Some(closed) = with a runtime check at every
+/// loop turn, a monotonic read where an expansion would be is the next turn's check (the turn popped a
+/// dead-end vertex); `closed` says that the history ends where the search ended.
+fn walk_from(ev: &[&ProbeEv], pos0: usize, lim: &Limits, exact: bool, size_may_fire: bool, key: &dyn Fn(&ProbeEv) -> u64, dense: Option<bool>) -> Result<(Predicted, u64, usize), String> {
     let mut pos = pos0;
     // the first monotonic read after the instance was built is the search's start time
     while pos < ev.len() && ev[pos].kind != K_MONO {
@@ -402,11 +455,25 @@ fn walk_from(ev: &[&ProbeEv], pos0: usize, lim: &Limits, exact: bool, size_may_f
             }
             i += 1;
         } else {
+            // no expansion at this loop turn. With a runtime check at every turn (frequency 1) the clock reads
+            // count the loop turns by themselves: another monotonic read right here is the next turn's check,
+            // so this turn popped a vertex that has no edge to expand (a dead end) - still a loop turn, still
+            // counted against the iteration limit. Anything else is the end of the search.
+            let dense_clock = dense.is_some() && lim.runtime.map_or(false, |(_, f)| f == 1);
+            if dense_clock && pos < ev.len() && ev[pos].kind == K_MONO {
+                if dense == Some(true) || ev[pos..].iter().any(|e| e.kind == PROBE_EXPAND) {
+                    i += 1;
+                    DEAD_END_TURNS.with(|c| c.set(c.get() + 1));
+                    continue;
+                }
+                // trailing reads of a history that is not closed: loop turns or progress reporting - undecidable
+                return Ok((Predicted::Unknown, i, pos));
+            }
             // natural end (destination popped / queue empty) — or, if a size limit is configured, it fired
             if size_may_fire {
                 return Ok((Predicted::Unknown, i, pos));
             }
-            if !exact {
+            if !exact && !dense_clock {
                 return Ok((Predicted::Unknown, i, pos));
             }
             return Ok((Predicted::Completed, i, pos));
@@ -621,10 +688,10 @@ fn judge(case: &Case, obs: &Obs) -> (Vec<Violation>, BTreeMap<String, u64>, bool
                 }
                 // (a query that is answered by another error - no destination, no path - may not have started
                 // either search: the monotonic reads in its history are progress reporting, not a search)
-                let first = if other_error && !seg.events.iter().any(|e| e.kind == PROBE_EXPAND) { Ok((Predicted::Unknown, 0, 0)) } else { walk_from(&seg.events, 0, &lim, exact, false, &fwd_key) };
+                let first = if other_error && !seg.events.iter().any(|e| e.kind == PROBE_EXPAND) { Ok((Predicted::Unknown, 0, 0)) } else { walk_from(&seg.events, 0, &lim, exact, false, &fwd_key, None) };
                 if let Some(end) = judge_sub("forward", first, false, &mut v) {
                     if !other_error && exact_rev {
-                        let second = walk_from(&seg.events, end, &lim, exact_rev, false, &rev_key);
+                        let second = walk_from(&seg.events, end, &lim, exact_rev, false, &rev_key, None);
                         judge_sub("reverse", second, true, &mut v);
                     }
                 }
@@ -710,11 +777,11 @@ impl Check for C10 {
         "C10"
     }
     fn families(&self, _tier: Tier) -> Vec<&'static str> {
-        vec!["runtime", "runtime", "combined", "iterations", "size", "combined", "ksp", "edge", "combined", "yens", "runtime"]
+        vec!["runtime", "runtime", "combined", "iterations", "size", "combined", "ksp", "edge", "combined", "yens", "runtime", "deadends", "ksp"]
     }
     fn default_runs(&self, tier: Tier) -> u64 {
         match tier {
-            Tier::Quick => 11000,
+            Tier::Quick => 13000,
             Tier::Thorough => 400000,
         }
     }
@@ -725,6 +792,7 @@ impl Check for C10 {
         let obs = execute(case, ExecOpts { reference: true, trace: false, log_clock: true, explore_build: false }, Box::new(InstallProbes), fatal_fd);
         let (violations, mut reach, nontrivial) = judge(case, &obs);
         reach.insert("preemptions".into(), obs.stats.preemptions);
+        reach.insert("dead_end_turns_counted".into(), DEAD_END_TURNS.with(|c| c.get()));
         let sig = fnv64(&format!("{}|{}|{}|{:?}", serde_json::to_string(&case.batches).unwrap(), case.world.termination, obs.stats.sched_hash, obs.recorded.faults.len()));
         ChildResult {
             violations,
